@@ -149,3 +149,39 @@ int hx_emit_san_events(const char *what) {
 	if (san_count() > san_nevents()) hx_san_last_was_write = 1;   /* event buffer overflowed: be conservative */
 	return n;
 }
+
+/* ---- LeakSanitizer: recoverable leak check with the report captured and mapped to library functions */
+#include <sys/mman.h>
+#include <unistd.h>
+#include <fcntl.h>
+#if defined(VARIANT_ASAN)
+int __lsan_do_recoverable_leak_check(void);
+int hx_leak_check(const char *what) {
+	fflush(stderr);
+	int saved = dup(2); int mfd = memfd_create("lsan", 0);
+	if (mfd < 0) return 0;
+	dup2(mfd, 2);
+	int leaks = __lsan_do_recoverable_leak_check();
+	dup2(saved, 2); close(saved);
+	if (!leaks) { close(mfd); return 0; }
+	static char rep[1 << 16]; lseek(mfd, 0, SEEK_SET); ssize_t n = read(mfd, rep, sizeof rep - 1); close(mfd); if (n < 0) n = 0; rep[n] = 0;
+	/* per leak record: "Direct leak of N byte(s) in M object(s) allocated from:" followed by "#k 0xPC ..." frames */
+	int reported = 0; char *p = rep;
+	while ((p = strstr(p, " leak of ")) != NULL && reported < 8) {
+		long bytes = atol(p + 9); char *end = strstr(p + 1, " leak of "); if (!end) end = rep + n;
+		const char *fn = "?"; char stack[400]; size_t so = 0; stack[0] = 0;
+		for (char *q = p; q < end; ) { char *h = strstr(q, " 0x"); if (!h || h >= end) break; uintptr_t pc = (uintptr_t) strtoul(h + 1, NULL, 16); q = h + 3;
+			if (!pc) continue; const char *sname = hx_sym(pc - 1);
+			if (so + 50 < sizeof stack) so += (size_t) snprintf(stack + so, sizeof stack - so, "%s ", sname);
+			if (!strcmp(fn, "?") && !strncmp(sname, "bidib_", 6)) fn = sname; }
+		int indirect = (p - rep >= 8 && !strncmp(p - 8, "Indirect", 8));
+		if (!indirect) { char cls[160]; snprintf(cls, sizeof cls, "leak allocated-in=%s", fn); res_violation(cls, "%s: %ld bytes leaked; allocation stack: %s", what, bytes, stack); reported++; }
+		p = end == rep + n ? end : end;
+		if (p >= rep + n) break;
+	}
+	if (!reported) res_violation("leak allocated-in=?", "%s: LeakSanitizer reported leaks: %.300s", what, rep);
+	return 1;
+}
+#else
+int hx_leak_check(const char *what) { (void) what; return 0; }
+#endif
